@@ -170,12 +170,10 @@ func (e *Engine) tryMerge(st *State, fr *Frame, x *ssa.If, c *Term, mT, mF Model
 				cond = Not(c)
 			}
 			s.Assume(cond)
-			if k == 0 && mT != nil {
-				s.Model = mT
-			}
-			if k == 1 {
-				s.Model = mF
-			}
+			// the side's model: the original model if it satisfies the side's
+			// condition (Assume drops it otherwise)
+			_ = mT
+			_ = mF
 			s.Spec = &Spec{Depth: depth, J: J, Outer: st.Spec, Budget: budget}
 			e.jump(s, s.top(), fr.Block.Succs[k])
 			if !e.run(s) {
